@@ -157,9 +157,9 @@ static std::unique_ptr<Dyn> parse(const std::vector<std::string> &tk, size_t &k)
     t->want_pos = ints(tk[k + 4]);
     auto sparse = ints(tk[k + 5]);
     if(!t->want_pos.empty()) {
-        t->want_assoc.assign(127, 0);
+        t->want_assoc.assign(256, 0);
         for(size_t i = 0; i + 1 < sparse.size(); i += 2)
-            if(sparse[i] >= 0 && sparse[i] < 127) t->want_assoc[sparse[i]] = sparse[i + 1];
+            if(sparse[i] >= 0 && sparse[i] < 256) t->want_assoc[sparse[i]] = sparse[i + 1];
     }
     k += 6;
     for(int i = 0; i < n; ++i) {
